@@ -81,6 +81,7 @@ type EntUniverse struct {
 	Notes   []string
 	Refs    []*string // candidate ref values (nil = null)
 	Extras  []string
+	Serials []int64
 	Fields  []string // fields a patch checker may select
 	System  bool     // draw IsSystem
 	Hostile bool     // occasionally draw hostile values (empty role, oversized name)
@@ -107,6 +108,9 @@ func GenSpec(t *rapid.T, l string, u EntUniverse) *EntSpec {
 	}
 	if len(u.Extras) > 0 {
 		s.Extra = pick(t, l+"_extra", u.Extras)
+	}
+	if len(u.Serials) > 0 {
+		s.Serial = pick(t, l+"_serial", u.Serials)
 	}
 	if u.System {
 		s.IsSystem = chance(t, l+"_sys", 40)
